@@ -143,6 +143,21 @@ Definition discretize (ad : list Z) : list Z :=
       else map (fun z => ((z - mn) * 299) / p) ad
   end.
 
+(* two's complement wrap of a signed w-bit integer *)
+Definition wrap_int (w z : Z) : Z :=
+  (z + 2 ^ (w - 1)) mod 2 ^ w - 2 ^ (w - 1).
+
+(* the same for an array of signed w-bit integers: differences wrap *)
+Definition discretize_int (w : Z) (ad : list Z) : list Z :=
+  match ad with
+  | [] => []
+  | z0 :: r =>
+      let mn := zmin_list z0 r in
+      let p := wrap_int w (zmax_list z0 r - mn) in
+      if p =? 0 then nan_cast (length ad)
+      else map (fun z => Z.quot (wrap_int w (z - mn) * 299) p mod 4294967296) ad
+  end.
+
 (* populate_grid: first event per cell is kept; None = IndexError (bounds
    check of the 300x300 memoryview) *)
 Fixpoint populate (xs ys : list Z) (seen : PositiveSet.t) : option (list bool) :=
@@ -253,6 +268,40 @@ Section Model.
     let ad := map fin_val (select good a) in
     let bd := map fin_val (select good b) in
     match grid_phase g ad bd samples good keep0 with
+    | (inr e, g1) => (Err e, g1)
+    | (inl keep1, g1) =>
+        match pad_phase g1 keep1 bad samples remove_invalid with
+        | (inr e, g2) => (Err e, g2)
+        | (inl keep, g2) => (Ok (select keep a) (select keep b) keep, g2)
+        end
+    end.
+
+  (* ---- signed integer input arrays (array level only) --------------------- *)
+  (* norm() computes a.max() - rmin and a - rmin in the dtype of a: for a
+     signed w-bit integer array both wrap; the quotient is a float64, the cast
+     of the (possibly negative or > 1) product to uint32 truncates towards
+     zero modulo 2^32 (observed). The dataset level converts to float64 first
+     (_apply_scale). *)
+  Definition grid_phase_int (w : Z) (g : rng) (ad bd : list Z) (samples : Z)
+             (good keep0 : list bool) : (list bool + error) * rng :=
+    if negb (samples =? 0) && (samples <? zlen ad) then
+      match populate (discretize_int w ad) (discretize_int w bd) PositiveSet.empty with
+      | None => (inr ErrIndex, g)
+      | Some keepd =>
+          match adjust g keepd samples with
+          | (Some keepdb, g') => (inl (scatter good keepdb keep0), g')
+          | (None, g') => (inr ErrValue, g')
+          end
+      end
+    else (inl keep0, g).
+
+  Definition downsample_grid_int (w : Z) (g : rng) (a b : list fval) (samples : Z)
+             (remove_invalid : bool) : result * rng :=
+    let bad := map2 orb (map is_bad a) (map is_bad b) in
+    let good := map negb bad in
+    let ad := map fin_val (select good a) in
+    let bd := map fin_val (select good b) in
+    match grid_phase_int w g ad bd samples good good with
     | (inr e, g1) => (Err e, g1)
     | (inl keep1, g1) =>
         match pad_phase g1 keep1 bad samples remove_invalid with
@@ -425,8 +474,15 @@ Definition run_flat (case : Z * list (list (Z * Z)) * list Z * table) : list Z :
   let bv i := map dec_bool (nthl ls i) in
   let flag i := negb (nthp ps i =? 0) in
   if kind =? 0 then      (* ps = [samples; remove_invalid; numpy scalar request] *)
-    enc_result (fst (downsample_grid_req Z 0 ch 1 (flag 2%nat) (fv 0%nat) (fv 1%nat)
-                                         (nthp ps 0) (flag 1%nat)))
+    if nthp ps 3 =? 0 then
+      enc_result (fst (downsample_grid_req Z 0 ch 1 (flag 2%nat) (fv 0%nat) (fv 1%nat)
+                                           (nthp ps 0) (flag 1%nat)))
+    else                 (* ps[3] = width of the signed integer dtype *)
+      match to_uint32 (flag 2%nat) (nthp ps 0) with
+      | Some s => enc_result (fst (downsample_grid_int Z 0 ch (nthp ps 3) 1 (fv 0%nat)
+                                                       (fv 1%nat) s (flag 1%nat)))
+      | None => enc_error ErrOverflow
+      end
   else if kind =? 1 then
     enc_result (fst (downsample_rand_req Z 0 ch 1 (flag 2%nat) (fv 0%nat)
                                          (nthp ps 0) (flag 1%nat)))
